@@ -4,6 +4,7 @@ mod dump;
 mod gen;
 mod c01;
 mod c02;
+mod c03;
 mod c04;
 mod c05;
 mod c06;
@@ -30,6 +31,7 @@ fn main() {
     match args.cmd.as_str() {
         "c01" => c01::run(&args),
         "c02" => c02::run(&args),
+        "c03" => c03::run(&args),
         "c04" => c04::run(&args),
         "c05" => c05::run(&args),
         "c06" => c06::run(&args),
